@@ -87,6 +87,13 @@ CLAIMED["C13"] = dict(cat="translation_validation", ref="DESIGN.md 6 C13",
    note="A specification adds little beyond stating the identity here; the value is the end-to-end run over the enumerated attribute space. Kernel-side configuration by the vendored plugins is not covered.",
    tech="TLC-enumerated input space + end-to-end differential run of the real encoder/transport/decoder chain")
 
+CLAIMED["C17"] = dict(cat="model_checking", ref="DESIGN.md 6 C17",
+   text="GC.tla is a behaviour specification of the collector (rounds interleaved with container deaths and runtime outages); TLC checks NeverCollectLive, FailSafe, PortCleanedBeforeStateFile and the liveness property "
+        "EventuallyCollected (weak fairness on rounds) and emits every scenario (container states x runtime phases) with the files that must survive each phase; the scenarios run against the real collector started through its "
+        "constructor, over real directories, with a fake docker daemon that answers, errs or drops connections per phase.",
+   note="Trusted: the fake docker daemon (inspect endpoint only). Containerd path and veth clean-up not covered. Time-based rounds: the driver waits for >= 3 inspect rounds per phase.",
+   tech="TLA+ behaviour spec checked by TLC (safety + liveness) + scenario vectors replayed into the real collector")
+
 NA = {
  "C19": "data races are below the granularity of an action-level TLA+ specification; deciding them needs a race detector / lock-set analysis, i.e. another technique (DESIGN.md section 1)",
 }
